@@ -314,27 +314,39 @@ def toggles(trees, parse) -> str:
     return "\n".join(out) + "\n"
 
 
-def generate(trees, parse) -> str:
-    out = [toggles(trees, parse)]
+def generate(trees, parse, skipped=None) -> str:
+    skipped = skipped if skipped is not None else []
+    out = []
+
+    def emit(name, thunk):
+        # fail-closed per definition (see py2coq.generate)
+        try:
+            out.append(thunk())
+        except Unsupported as err:
+            out.append("(* NOT TRANSLATED %s: %s *)" % (name, str(err).replace("*)", "* )")))
+            skipped.append("%s: %s" % (name, err))
+
+    emit("toggles", lambda: toggles(trees, parse))
     path = "icontract/_checkers.py"
     if path not in trees:
         trees[path] = parse(path)
     tree, _ = trees[path]
     sigs = module_sigs(tree)
-    dec = find_top(tree, "decorate_with_checker")
     out.append("(* skeletons of the run-time wrappers (await, async and the _async suffix erased; sync-only\n"
                "   rejection and async-only awaiting of coroutine conditions folded into JUDGE) *)")
-    out.append(coq_lines("skel_checker_sync", skeleton(find_nested(dec, "wrapper", False), sigs)))
-    out.append(coq_lines("skel_checker_async", skeleton(find_nested(dec, "wrapper", True), sigs)))
+    emit("skel_checker_sync", lambda: coq_lines("skel_checker_sync", skeleton(find_nested(find_top(tree, "decorate_with_checker"), "wrapper", False), sigs)))
+    emit("skel_checker_async", lambda: coq_lines("skel_checker_async", skeleton(find_nested(find_top(tree, "decorate_with_checker"), "wrapper", True), sigs)))
     for base in ("_assert_preconditions", "_capture_old", "_assert_postconditions"):
-        out.append(coq_lines("skel%s_sync" % base, skeleton(find_top(tree, base), sigs)))
-        out.append(coq_lines("skel%s_async" % base, skeleton(find_top(tree, base + "_async"), sigs)))
-    inv = find_top(tree, "_decorate_with_invariants")
-    initw, rest = init_wrapper(inv)
-    out.append(coq_lines("skel_init_wrapper", skeleton(initw, sigs)))
-    holder = ast.Module(body=rest, type_ignores=[])
-    out.append(coq_lines("skel_invariant_sync", skeleton(find_nested(holder, "wrapper", False), sigs)))
-    out.append(coq_lines("skel_invariant_async", skeleton(find_nested(holder, "wrapper", True), sigs)))
-    out.append(coq_lines("skel_new_wrapper", skeleton(find_nested(find_top(tree, "_decorate_new_with_invariants"),
-                                                                  "wrapper", False), sigs)))
+        emit("skel%s_sync" % base, lambda base=base: coq_lines("skel%s_sync" % base, skeleton(find_top(tree, base), sigs)))
+        emit("skel%s_async" % base, lambda base=base: coq_lines("skel%s_async" % base, skeleton(find_top(tree, base + "_async"), sigs)))
+
+    def inv_parts():
+        inv = find_top(tree, "_decorate_with_invariants")
+        initw, rest = init_wrapper(inv)
+        return initw, ast.Module(body=rest, type_ignores=[])
+    emit("skel_init_wrapper", lambda: coq_lines("skel_init_wrapper", skeleton(inv_parts()[0], sigs)))
+    emit("skel_invariant_sync", lambda: coq_lines("skel_invariant_sync", skeleton(find_nested(inv_parts()[1], "wrapper", False), sigs)))
+    emit("skel_invariant_async", lambda: coq_lines("skel_invariant_async", skeleton(find_nested(inv_parts()[1], "wrapper", True), sigs)))
+    emit("skel_new_wrapper", lambda: coq_lines("skel_new_wrapper", skeleton(find_nested(find_top(tree, "_decorate_new_with_invariants"),
+                                                                                     "wrapper", False), sigs)))
     return "\n\n".join(out) + "\n"
